@@ -454,6 +454,10 @@ func Query(t *rapid.T, cmds []database.Command, allow []QueryClass) (string, Que
 		}
 		// NLPWords: every word the language heuristics know, phrases also split into their words
 		return TextOf(rapid.OneOf(nlpw, fromDB, rapid.SampledFrom(NLPWords)), 1, 6).Draw(t, "q"), cls
+	case "inflected":
+		// inflected forms (plural, -ing, -ed, -er, possessive) of the single words the language
+		// heuristics know, next to those words themselves and words of the database
+		return TextOf(rapid.OneOf(Inflected(), Inflected(), rapid.SampledFrom(nlpSingle()), fromDB), 1, 5).Draw(t, "q"), cls
 	case "stop":
 		return TextOf(rapid.SampledFrom([]string{"the", "to", "a", "in", "go", "up", "how", "of"}), 1, 4).Draw(t, "q"), cls
 	case "punct":
@@ -757,4 +761,71 @@ var NLPWords = []string{"-x", "a", "access", "account", "active", "adapter", "ad
 func ClueSentence(t *rapid.T) string {
 	clue := rapid.SampledFrom([]string{"see", "view", "show", "display", "read", "look", "without", "without", "opening", "editing", "without opening", "without editing", "file", "contents", "it", "inside", "tar -x", "network interface address"})
 	return TextOf(clue, 1, 5).Draw(t, "clue-sentence")
+}
+
+var nlpSingleCache []string
+
+// nlpSingle lists the single words (3+ letters, letters only) among NLPWords.
+func nlpSingle() []string {
+	if nlpSingleCache == nil {
+		for _, w := range NLPWords {
+			ok := len(w) >= 3
+			for _, r := range w {
+				if r < 'a' || r > 'z' {
+					ok = false
+				}
+			}
+			if ok {
+				nlpSingleCache = append(nlpSingleCache, w)
+			}
+		}
+	}
+	return nlpSingleCache
+}
+
+// Inflected draws an inflected form of a single word the language heuristics know: plural,
+// -es, -ies, -ing (with and without the final e), -ed, -er, possessive, or the singular of a word
+// that is listed in the plural.
+func Inflected() *rapid.Generator[string] {
+	return rapid.Custom(func(t *rapid.T) string {
+		w := rapid.SampledFrom(nlpSingle()).Draw(t, "base-word")
+		stem := strings.TrimSuffix(w, "e")
+		switch rapid.IntRange(0, 9).Draw(t, "inflection") {
+		case 0, 1, 2:
+			if strings.HasSuffix(w, "y") {
+				return strings.TrimSuffix(w, "y") + "ies"
+			}
+			if strings.HasSuffix(w, "s") || strings.HasSuffix(w, "x") || strings.HasSuffix(w, "ch") || strings.HasSuffix(w, "sh") {
+				return w + "es"
+			}
+			return w + "s"
+		case 3:
+			return w + "es"
+		case 4:
+			return stem + "ing"
+		case 5:
+			return w + "ing"
+		case 6:
+			return stem + "ed"
+		case 7:
+			return stem + "er"
+		case 8:
+			return w + "'s"
+		default:
+			if strings.HasSuffix(w, "s") {
+				return strings.TrimSuffix(w, "s")
+			}
+			return w + "s"
+		}
+	})
+}
+
+// LanguagePack returns one plain entry per single word the language heuristics know, so that
+// whatever word that stage adds to a query (a synonym, a hint, a stem) is a word of the database.
+func LanguagePack() []database.Command {
+	var out []database.Command
+	for _, w := range nlpSingle() {
+		out = append(out, database.Command{Command: w + " --" + w, Description: "about " + w})
+	}
+	return out
 }
